@@ -332,11 +332,11 @@ def gen_diagonal(tier, rng):
         pairs = [(p, q) for p in all_axes(r) for q in all_axes(r) if p % r != q % r]
         for p, q in pairs:
             neg = p < 0 or q < 0
+            # rank <= 3 (the exhaustive extents scope): every axis pair (both spellings) x every offset, so that the
+            # general theorems diagonal_shape / _elem / _inBounds are tied to the code on their whole small scope;
+            # rank 4 and the sampled larger rank-3 shapes: sampled offsets
             offs = offsets(tier)
-            if tier == 'quick':
-                if r >= 3:
-                    offs = sample(rng, offs, 1 if neg else 3)
-            elif r >= 3:
+            if r >= 4 or (r >= 3 and any(e > scope(tier)[1] for e in s)):
                 offs = sample(rng, offs, 1 if neg else 3)
             for off in offs:
                 yield Case('diagonal shape=%s offset=%d axis1=%d axis2=%d' % (fmt(s), off, p, q), H_B,
